@@ -71,6 +71,18 @@ def run(ctx):
                 mod.reset_state()
         fresh()
         ref = mod(x)
+        # the same bits held as a transposed view (non-contiguous strides)
+        if x.dim() == 2 and min(x.shape) > 1:
+            xv = x.t().contiguous().t()
+            fresh()
+            try:
+                yv = mod(xv)
+                ctx.count("view-cases")
+                if tuple(yv.shape) != tuple(ref.shape) or not torch.allclose(yv.to(torch.complex128), ref.to(torch.complex128), rtol=1e-5, atol=1e-6):
+                    ctx.violation(key % "view", "%s(%s): bits of shape %s held with strides %s give other symbols than the same bits held contiguously" % (name, cfg, tuple(x.shape), tuple(xv.stride())), rep)
+                    return
+            except Exception:
+                ctx.count("views-rejected")
         for dt in (torch.uint8, torch.int8, torch.int32, torch.int64, torch.bool, torch.float64):
             xin = x.to(dt)
             x0 = xin.clone()
